@@ -4,6 +4,9 @@ Everything is drawn from the single run PRNG handed in; generation consults the 
 only, never the real graphs.
 """
 ORIGINS = (0, 0, -7, 10 ** 9)
+FAR_ORIGINS = (2 ** 31 - 3, -(2 ** 31) - 4, 2 ** 53 + 1, -(10 ** 12))   # 32-bit / float-mantissa boundaries (scale runs)
+INT_NODES_XL = list(range(12))
+STR_NODES_XL = list('abcdefghijkl')
 INT_NODES = [0, 1, 2, 3, 4, 5]
 STR_NODES = ['a', 'b', 'c', 'd', 'e', 'f']
 TUPLE_NODES = [(0, 1), (1, 0), (2, 2), (0,), (1, 2, 3), (5, 0)]
@@ -38,6 +41,9 @@ def swarm(rng, focus, tier='quick'):
         pool = list(TUPLE_NODES)                    # any hashable id: tuples (they become lists in JSON replay files)
     if tier == 'thorough' and rng.random() < 0.3 and pool in (INT_NODES, STR_NODES):
         pool = pool + ([6, 7] if pool is INT_NODES or pool == INT_NODES else ['g', 'h'])     # larger universes in the thorough tier
+    scale = focus not in ('C12', 'C13', 'C15', 'C20') and rng.random() < (0.12 if tier == 'thorough' else 0.05)
+    if scale and pool in (INT_NODES, STR_NODES):
+        pool = list(INT_NODES_XL) if pool == INT_NODES else list(STR_NODES_XL)
     cfg = {
         'origin': rng.choice(ORIGINS),
         'nodes': pool[:rng.randint(2, len(pool))],
@@ -60,6 +66,17 @@ def swarm(rng, focus, tier='quick'):
     cfg['p_swap'] = rng.choice([0.0, 0.3, 0.5])
     cfg['p_span'] = rng.choice([0.2, 0.5, 0.8])
     cfg['p_newpair'] = rng.choice([0.15, 0.3, 0.6])
+    cfg['maxlen'] = 5
+    if scale:
+        # magnitude: more nodes, many more instants, long spans, long histories, far-away origins;
+        # the engine checks such runs sparsely (every 5th / 10th step or at the end only)
+        cfg['scale'] = True
+        cfg['nodes'] = pool[:rng.randint(min(8, len(pool)), len(pool))]
+        cfg['steps'] = rng.randint(40, 90)
+        cfg['horizon'] = rng.randint(24, 48)
+        cfg['maxlen'] = rng.choice([5, 14, 22])
+        if rng.random() < 0.4:
+            cfg['origin'] = rng.choice(FAR_ORIGINS)
     return cfg
 
 
@@ -98,7 +115,7 @@ def gen_span(rng, m, u, v, cfg, want=None):
     ids = m.instants()
     if ids and abs(ids[0] - o) > 64:
         o = ids[0]          # replicas rebuilt with compacted timestamps live near their own origin
-    length = 1 if rng.random() > cfg['p_span'] else rng.randint(1, 5)
+    length = 1 if rng.random() > cfg['p_span'] else rng.randint(1, cfg.get('maxlen', 5))
     point = rng.random() > cfg['p_span']
     if not runs:
         cls = 'first'
